@@ -142,8 +142,14 @@ def _migrate_csv_to_rules(csv_file: str, config_dir: str, backup: bool = True) -
         # Backup old file last: until the new file is written and referenced,
         # the CSV stays where load_config finds it
         if backup and os.path.exists(csv_file):
-            shutil.move(csv_file, csv_file + '.bak')
-            print(f"  {C.GREEN}✓{C.RESET} Backed up: merchant_categories.csv → .bak")
+            # Never overwrite an earlier backup
+            backup_path = csv_file + '.bak'
+            n = 1
+            while os.path.exists(backup_path):
+                backup_path = f'{csv_file}.bak.{n}'
+                n += 1
+            shutil.move(csv_file, backup_path)
+            print(f"  {C.GREEN}✓{C.RESET} Backed up: merchant_categories.csv → {os.path.basename(backup_path)}")
 
         return True
     except Exception as e:
@@ -749,11 +755,15 @@ def migrate_v0_to_v1(old_config_dir, skip_confirm=False):
 
     # Perform migration
     tally_dir = os.path.abspath('tally')
+    new_config = os.path.join(tally_dir, 'config')
+    if os.path.exists(new_config):
+        # shutil.move would nest ./config inside it (tally/config/config)
+        print(f"Cannot migrate: {new_config} already exists", file=sys.stderr)
+        return None
     try:
         os.makedirs(tally_dir, exist_ok=True)
 
         # Move config directory
-        new_config = os.path.join(tally_dir, 'config')
         print(f"  Moving config/ -> tally/config/")
         shutil.move(old_config_dir, new_config)
 
@@ -762,6 +772,10 @@ def migrate_v0_to_v1(old_config_dir, skip_confirm=False):
             old_path = os.path.abspath(subdir)
             if os.path.isdir(old_path):
                 new_path = os.path.join(tally_dir, subdir)
+                if os.path.exists(new_path):
+                    # Moving would nest it (tally/data/data): leave it where it is
+                    print(f"  Keeping {subdir}/ (tally/{subdir}/ already exists)")
+                    continue
                 print(f"  Moving {subdir}/ -> tally/{subdir}/")
                 shutil.move(old_path, new_path)
 
